@@ -2,6 +2,7 @@
 // memcpy / memset for every length and alignment in the SIMD configuration of the build.
 // Oracle: std::vector / unit-vector models compared after every step; allocation ledger; ASan with exact-fit growth.
 #include "common/pbt.hpp"
+#include <sys/mman.h>
 #include "common/jmodel.hpp"
 
 #include <algorithm>
@@ -623,6 +624,44 @@ void run_string(const Case &c, pbt::Ctx &ctx, Trace &tr) {
 }
 
 // ------------------------------------------------------------------------------------------------ StringStream
+// A foreign buffer whose address differs from a position inside the container's own block by a multiple of 2^32 units: the library's
+// sizes are 32 bits wide, so a pointer difference that is narrowed before it is tested takes such a buffer for a part of the container.
+// Mapped at the wanted address (MAP_FIXED_NOREPLACE); when the place is taken (a sanitizer's reserved ranges, say) the step is skipped.
+template <typename Char_T>
+struct FarBuffer {
+    void   *map{MAP_FAILED};
+    size_t  map_len{0};
+    Char_T *p{nullptr};
+    FarBuffer(const Char_T *own, size_t own_len, unsigned k, unsigned d, const Units &u) {
+        if (own == nullptr || own_len == 0) {
+            return;
+        }
+        const uintptr_t want = uintptr_t(own + (d % own_len)) + uintptr_t(k) * (uintptr_t(1) << 32) * sizeof(Char_T);
+        const uintptr_t page = want & ~uintptr_t(4095);
+        map_len              = size_t((want - page) + (u.size() + 1) * sizeof(Char_T) + 4095) & ~size_t(4095);
+        map                  = mmap(reinterpret_cast<void *>(page), map_len, PROT_READ | PROT_WRITE, MAP_PRIVATE | MAP_ANONYMOUS | MAP_FIXED_NOREPLACE, -1, 0);
+        if (map == MAP_FAILED) {
+            return;
+        }
+        if (map != reinterpret_cast<void *>(page)) { // (kernels that do not know the flag treat the address as a hint)
+            munmap(map, map_len);
+            map = MAP_FAILED;
+            return;
+        }
+        p = reinterpret_cast<Char_T *>(want);
+        for (size_t i = 0; i < u.size(); ++i) {
+            p[i] = Char_T(u[i]);
+        }
+        p[u.size()] = Char_T(0);
+    }
+    ~FarBuffer() {
+        if (map != MAP_FAILED) {
+            munmap(map, map_len);
+        }
+    }
+    FarBuffer(const FarBuffer &)            = delete;
+    FarBuffer &operator=(const FarBuffer &) = delete;
+};
 template <typename Char_T>
 void check_stream(const StringStream<Char_T> &s, const Units &m, const char *after, pbt::Ctx &ctx) {
     auto bad = [&](const std::string &why) { ctx.fail("stream-model-mismatch", std::string("after ") + after + ": " + why); };
@@ -703,6 +742,29 @@ void run_stream(const Case &c, pbt::Ctx &ctx, Trace &tr) {
             check_stream(s, m, "growth in big steps", ctx);
             s.Reset();
             m.clear();
+            continue;
+        }
+        if (g_gen2 && (step == 3 || step == 9) && !c.bytes.empty() && (c.bytes.back() % 8) == 1 && !m.empty()) {
+            // a range from a far buffer (see FarBuffer), long enough to make the stream grow: the stream's own units must not be taken for it
+            Units u;
+            const size_t un = size_t(s.Capacity() - s.Length()) + 1 + (c.bytes.back() >> 3) % 7;
+            for (size_t i = 0; i < un; ++i) {
+                u.push_back('A' + uint32_t((i + step) % 26));
+            }
+            FarBuffer<Char_T> far(s.First(), s.Length(), 1 + unsigned(c.bytes.size() % 3), unsigned(c.bytes[0]), u);
+            if (far.p != nullptr) {
+                if ((c.bytes.back() & 0x40) != 0) {
+                    s.Write(far.p, SizeT(un));
+                } else {
+                    s += static_cast<const Char_T *>(far.p);
+                }
+                m.insert(m.end(), u.begin(), u.end());
+                tr.add("append from a buffer 2^32 units away");
+                ctx.label("stream:append-from-far-buffer");
+                check_stream(s, m, "append from a buffer whose address is a multiple of 2^32 units away from the stream's block", ctx);
+            } else {
+                ctx.label("stream:far-buffer-address-taken");
+            }
             continue;
         }
         switch (e.below(30)) {
